@@ -250,7 +250,9 @@ func (t *basicTaskBase) ensureBasicTaskKilled() (err error) {
 	if t.Tci.ControlMode == controlmode.HOOK {
 		return nil
 	}
-	if t.taskCmd.ProcessState.Exited() {
+	// ProcessState is only set once Wait has returned in the reaper goroutine: nil means the
+	// process has not been reaped yet and must be killed like any running one.
+	if t.taskCmd.ProcessState != nil && t.taskCmd.ProcessState.Exited() {
 		return nil
 	}
 
